@@ -3,7 +3,7 @@ open Driver
 
 let evs_dummy _ _ _ _ _ = Nil
 
-let handle (x : sexp) : string =
+let handle (x : sexp) : Stdlib.String.t =
   match x with
   | L (A "space" :: l) ->
       Hashtbl.reset space_tbl;
@@ -12,7 +12,10 @@ let handle (x : sexp) : string =
       (match best_layout evs_dummy big_fuel big_fuel (boolv smart) (zint w) (zint rw) (doc_of d) with
        | None -> "FUEL"
        | Some out -> "S " ^ stream_out out ^ " | R " ^ str_out (default_render is_space out))
-  | L [A "normalize"; d] -> "ok"
+  | L [A "cfg"; L d0; L h] ->
+      let obs = run_cfg entry_points set_default_plumbing (List.map cop_of h) (env_of d0) in
+      String.concat " ; " (List.map (fun (d, eff) ->
+        env_out d ^ " | " ^ (match eff with None -> "-" | Some e -> env_out e)) obs)
   | _ -> "ERR bad request"
 
 let () =
